@@ -42,6 +42,8 @@ def isIdUn (w : World) (hc : HCfg) : Nat → Ty → Bool
         if hc.cfg.gen then
           !hc.hasOvr c && (w.fields c).all (fun f => match f.ty with | some t' => isIdUn w hc n t' | none => false)
         else false             -- BaseConverter: a TypedDict class `is_mapping` -> `_unstructure_mapping`
+    -- `cols._is_passthrough`: every field hook is `identity` (Converter); a BaseConverter has no NamedTuple hook at all
+    | .nt c => if hc.cfg.gen then (w.ntTys c).all (fun t' => isIdUn w hc n t') else true
     | _ => false
 
 def strKey (s : String) : HVal := .leaf (.str s)
@@ -74,12 +76,20 @@ def zipTasks : List Call → List HVal → List (Call × HVal)
   | c :: cs, x :: xs => (c, x) :: zipTasks cs xs
   | _, _ => []
 
+/-- `namedtuple_unstructure_factory` on an instance with items `fs`: the instance itself when no item needs
+conversion (`_is_passthrough`; always for a BaseConverter, which has no NamedTuple hook), else a fresh tuple -/
+def planNTUn (w : World) (hc : HCfg) (n : Nat) (c : Nat) (v : HVal) (fs : List (String × HVal)) : Prog :=
+  if hc.cfg.gen && !(w.ntTys c).all (fun t' => isIdUn w hc n t') then
+    .build false false (.coll .tuple) (zipTasks ((w.ntTys c).map .un) (fs.map (·.2)))
+  else .ident v
+
 /-- `converter.unstructure(v)`: dispatch on the run-time class -/
-def planUnAny (w : World) (cfg : Cfg) (v : HVal) (view : Option Cell) : Prog :=
+def planUnAny (w : World) (hc : HCfg) (n : Nat) (v : HVal) (view : Option Cell) : Prog :=
+  let cfg := hc.cfg
   match view with
   | some (.coll ck xs) => .build false false (.coll (if cfg.gen then ck.anyTo else ck)) (xs.map fun x => (.unAny, x))
   | some (.dict kvs) => .build false false .dict (kvTasks .unAny .unAny kvs)
-  | some (.inst c fs) => planClsUn w cfg c fs
+  | some (.inst c fs) => if w.isNT c then planNTUn w hc n c v fs else planClsUn w cfg c fs
   | some (.opaque _) => .ident v                       -- unknown class: fallback hook is `identity`
   | none => match v with
     | .leaf (.enumM e m) => .leaf (enumValue w e m)
@@ -103,7 +113,7 @@ def tdUnPatches (w : World) (hc : HCfg) (n : Nat) (c : Nat) (kvs : List (HVal ×
         | none => ({ dels := dels, call := none } :: ps, doomed || f.required)   -- `instance['a']`: KeyError
 
 def planUn (w : World) (hc : HCfg) (n : Nat) : Ty → HVal → Option Cell → Prog
-  | .any, v, view => planUnAny w hc.cfg v view
+  | .any, v, view => planUnAny w hc n v view
   | .enum _, .leaf (.enumM e m), _ => .leaf (enumValue w e m)
   | .coll k t, _, some (.coll ck xs) =>
       if hc.cfg.gen then .build false false (.coll k.unstructTo) (xs.map fun x => (.un t, x))
@@ -115,7 +125,7 @@ def planUn (w : World) (hc : HCfg) (n : Nat) : Ty → HVal → Option Cell → P
       if hc.cfg.gen then .build false false .dict (kvTasks (.un kt) (.un vt) kvs)
       else .build false false .dict (kvTasks .unAny .unAny kvs)
   | .opt _, .leaf .none, _ => .leaf .none
-  | .opt t, v, view => if hc.cfg.gen then planUn w hc n t v view else planUnAny w hc.cfg v view
+  | .opt t, v, view => if hc.cfg.gen then planUn w hc n t v view else planUnAny w hc n v view
   | .wrap k t, v, view =>
       if hc.cfg.gen || k == .final || k == .alias then planUn w hc n t v view else .ident v
   | .cls c, _, some (.inst _ fs) => planClsUn w hc.cfg c fs
@@ -126,7 +136,8 @@ def planUn (w : World) (hc : HCfg) (n : Nat) : Ty → HVal → Option Cell → P
         | .ref l => let (ps, doomed) := tdUnPatches w hc n c kvs (w.fields c)
                     .copyPatch false doomed false l kvs ps
         | _ => .fail
-  | .union _ _, v, view => planUnAny w hc.cfg v view     -- `_unstructure_union`: dispatch on the run-time class
+  | .union _ _, v, view => planUnAny w hc n v view     -- `_unstructure_union`: dispatch on the run-time class
+  | .nt c, v, some (.inst _ fs) => planNTUn w hc n c v fs
   | _, v, _ => .ident v
 
 end CattrsModel.Heap
